@@ -31,7 +31,7 @@ def tier_config(prop, tier):
 
 CONTOURS_2D = ["IFORM", "ISORM", "HDC", "DirectSampling", "And", "Or"]
 SEM_STRINGS = ["Significant wave height", "Zero-up-crossing period", "Wind speed", "Höhe", "T_z [s]", "a;b", "100 % load", "x (y)", "名前", "H_s, 1/3", " leading", "tab\there"]
-UNIT_STRINGS = ["m", "s", "m s$^{-1}$", "-", "%", "°", "m/s", "arb. unit", ""]
+UNIT_STRINGS = ["m", "s", "m s$^{-1}$", "-", "%", "°", "m/s", "arb. unit", "", "m/s²", "μm", "‰"]
 
 
 def _gen_contour(S, three_d_ok=False):
@@ -163,8 +163,12 @@ def expected_header(sem, dim):
 
 def check_saved_file(path, coords, header):
     """None if the file is the complete, correct export, else a dict describing the defect."""
-    with open(path, "r", encoding=None) as f:  # the real open (seam not installed while checking)
-        text = f.read()
+    try:
+        with open(path, "r", encoding=None) as f:  # the real open (seam not installed while checking)
+            text = f.read()
+    except UnicodeDecodeError as e:
+        # a text export is read with the platform's text encoding, the one a plain open(path) uses
+        return {"what": "not readable as text", "error": repr(e)[:160]}
     lines = text.split("\n")
     if lines and lines[-1] == "":
         lines = lines[:-1]
